@@ -148,7 +148,13 @@ func (h *harness) compare(r *runner, scn *Scenario) {
 	for i, a := range r.asks {
 		lines[i] = a.line
 	}
-	outs, err := h.drv.AskAll(lines)
+	var outs []string
+	var err error
+	if !lib.WithDeadline(120*time.Second, func() { outs, err = h.drv.AskAll(lines) }) {
+		h.res.Fatalf("the Lean driver did not answer %d requests within 120s (hung)", len(lines))
+		h.drv = nil // the pipe is in an unknown state: this worker stops comparing
+		return
+	}
 	if err != nil {
 		h.res.Fatalf("the Lean driver died or answered short (%d of %d answers): %v", len(outs), len(lines), err)
 		return
